@@ -212,7 +212,7 @@ class Signal(object):
             range to smooth over
         """
         if smooth_fa_freqs is not None:
-            self._smooth_fa_freqs = smooth_fa_freqs
+            self._smooth_fa_freqs = np.array(smooth_fa_freqs, dtype=float)
         self._smooth_fa_spectrum = calc_smooth_fa_spectrum(self.fa_freqs,
                                                                self.fa_spectrum, self.smooth_fa_freqs, band=band)
         self._cached_smooth_fa = True
